@@ -12,8 +12,10 @@
 (*       ms = sequence of matchers [name, type, value]                     *)
 (*   S   one series                   [blk, id]   (id: its decimal digits) *)
 (*   MC  a converted label matcher    [name, type, value]                  *)
+(*   RP  expanded postings of a selector set in the RECEIVER's cache       *)
+(*       (pkg/receive/expandedpostingscache, cacheKey)   [blk, ms]         *)
 (* P, EP and S items share one key space (one memcached / one LRU); MC     *)
-(* items live in a cache of their own.                                     *)
+(* items live in a cache of their own, and so do RP items.                 *)
 (*                                                                         *)
 (* Strings are sequences of one-character strings over an alphabet that    *)
 (* CONTAINS the separator characters the builders use, so that a           *)
@@ -37,11 +39,13 @@ KRange(s) == { s[x] : x \in DOMAIN s }
 (* part of the identity of P / EP items (the cached bytes differ).  Two    *)
 (* matcher lists that are equal as sets denote the same selector set:      *)
 (* sharing a key between them is allowed (weakest reading).                *)
-Ident(i) == IF i.kind = "EP" THEN [kind |-> "EP", blk |-> i.blk, comp |-> i.comp, ms |-> KRange(i.ms)] ELSE i
+Ident(i) == IF i.kind = "EP" THEN [kind |-> "EP", blk |-> i.blk, comp |-> i.comp, ms |-> KRange(i.ms)]
+            ELSE IF i.kind = "RP" THEN [kind |-> "RP", blk |-> i.blk, ms |-> KRange(i.ms)]
+            ELSE i
 SameItem(i, j) == Ident(i) = Ident(j)
 
 (* Which cache an item lives in.  *)
-Space(i) == IF i.kind = "MC" THEN "conv" ELSE "index"
+Space(i) == IF i.kind = "MC" THEN "conv" ELSE IF i.kind = "RP" THEN "recv" ELSE "index"
 
 (* C13 for a finite family of items with their keys (two sequences of equal *)
 (* length): "two different cached items never share a cache key".  The      *)
@@ -125,9 +129,43 @@ ConvKeyLegacy(i) == i.name \o TypeStr(i.type) \o i.value
 (* Now: type, length of the name, ':', name, value.                          *)
 ConvKey(i) == TypeStr(i.type) \o Dec(Len(i.name)) \o <<":">> \o i.name \o i.value
 
+(* --- receiver's expanded-postings cache key (expandedpostingscache.cacheKey) ---------------- *)
+(* The matchers are sorted by (type, name, value) first, so permutations of a list get the    *)
+(* same key.  Type order is labels.MatchType: = , != , =~ , !~ ; strings compare bytewise;     *)
+(* KnownChars lists the characters of the model's alphabets in byte order.                     *)
+KnownChars == <<"!", "\"", "1", ":", ";", "=", "\\", "a", "b", "|", "~">>
+CharOrd(c) == CHOOSE k \in 1..Len(KnownChars) : KnownChars[k] = c
+TypeOrd(t) == CASE t = "EQ" -> 0 [] t = "NEQ" -> 1 [] t = "RE" -> 2 [] t = "NRE" -> 3
+RECURSIVE StrLess(_, _)
+StrLess(a, b) == IF b = <<>> THEN FALSE
+                 ELSE IF a = <<>> THEN TRUE
+                 ELSE IF Head(a) = Head(b) THEN StrLess(Tail(a), Tail(b))
+                 ELSE CharOrd(Head(a)) < CharOrd(Head(b))
+MatcherLess(m, n) == IF m.type # n.type THEN TypeOrd(m.type) < TypeOrd(n.type)
+                     ELSE IF m.name # n.name THEN StrLess(m.name, n.name)
+                     ELSE StrLess(m.value, n.value)
+(* insertion sort (lists are short) *)
+RECURSIVE InsertSorted(_, _)
+InsertSorted(sorted, m) == IF sorted = <<>> THEN <<m>>
+                           ELSE IF MatcherLess(m, Head(sorted)) THEN <<m>> \o sorted
+                           ELSE <<Head(sorted)>> \o InsertSorted(Tail(sorted), m)
+RECURSIVE SortMatchers(_)
+SortMatchers(ms) == IF ms = <<>> THEN <<>> ELSE InsertSorted(SortMatchers(Tail(ms)), Head(ms))
+(* Before the fix: seed "|" block, then name type value "|" glued together per matcher.        *)
+(* Now: each matcher rendered by labels.Matcher.String (quoted), then "|".  The seed is a      *)
+(* decimal number chosen per metric name for head blocks and empty for persisted blocks; it    *)
+(* is one token here.                                                                          *)
+RecvMatcher(m, legacy) == IF legacy THEN m.name \o TypeStr(m.type) \o m.value ELSE MatcherStr(m)
+RecvKey(i, legacy) ==
+    LET sm == SortMatchers(i.ms) IN
+    <<"seed", "|", i.blk>> \o KFlatten([x \in DOMAIN sm |-> RecvMatcher(sm[x], legacy) \o <<"|">>])
+
+(* `legacy` is the set of item kinds for which the builder as it was BEFORE its fix is used    *)
+(* ({} = the code as it is now; used to break the model on purpose).                          *)
 Key(i, legacy) ==
-    CASE i.kind = "P"  -> PostingsKey(i, legacy)
+    CASE i.kind = "P"  -> PostingsKey(i, "P" \in legacy)
+      [] i.kind = "RP" -> RecvKey(i, "RP" \in legacy)
       [] i.kind = "EP" -> ExpandedKey(i)
       [] i.kind = "S"  -> SeriesKey(i)
-      [] i.kind = "MC" -> IF legacy THEN ConvKeyLegacy(i) ELSE ConvKey(i)
+      [] i.kind = "MC" -> IF "MC" \in legacy THEN ConvKeyLegacy(i) ELSE ConvKey(i)
 =============================================================================
